@@ -563,6 +563,21 @@ func Execute(id, tier string, seed int64, verbose bool) int {
 			mismatches = append(mismatches, fmt.Sprintf("%s: executor predicted %v, native run gave %v (escaped=%q)", key, v.Observed, n.Observations, n.Escaped))
 			continue
 		}
+		// an obligation the harness itself asserts is evaluated by the native run as well:
+		// it must fail there too (oracle obligations "<key>:set/bool/number/string" exist only in the executor)
+		oracleOb := strings.HasSuffix(v.Label, ":set") || strings.HasSuffix(v.Label, ":bool") || strings.HasSuffix(v.Label, ":number") || strings.HasSuffix(v.Label, ":string")
+		if !oracleOb {
+			failedNatively := false
+			for _, f := range n.Failed {
+				if f == v.Label {
+					failedNatively = true
+				}
+			}
+			if !failedNatively {
+				mismatches = append(mismatches, fmt.Sprintf("%s: the executor's model falsifies the harness assertion but the native run satisfies it (inputs %v)", key, v.Inputs))
+				continue
+			}
+		}
 		confirmed++
 		if seenKeys[key] {
 			continue
